@@ -3,6 +3,7 @@ import Bashlex.Serialize
 import Bashlex.Spec.PyVal
 import Bashlex.Spec.Tree
 import Bashlex.Spec.Rel
+import Bashlex.Spec.Quote
 import Bashlex.Model.Visitor
 
 namespace Bashlex
@@ -32,6 +33,7 @@ def evalProp (prop : String) (src : Str) (parts : List Node) (dbg : Bool := fals
   | "C04" => (parts.map (textOK src · dbg)).flatten
   | "C05" => coverOK src parts
   | "C12" => (parts.map (schemaOK · dbg)).flatten
+  | "C06" => quoteOKL src "" parts
   | _ => ["unknown-property"]
 
 def parseHexStr (s : String) : Str :=
@@ -138,6 +140,19 @@ def relEval (prop : String) (params : List String) (src : Str) (outs : List Stri
     | .ok _, .error _ => if isTree o2 then ["relayout-ill-typed"] else ["relayout-fails"]
     | .error e, _ => ["ill-typed:" ++ e]
   | "C11", [], [o] => errOK src o
+  | "C06split", [], [o] =>
+    -- `split` versus POSIX shlex on the plain / blank / quote / backslash alphabet
+    let feats := (splitFeatures src).tags ++ (if src.getLast? == some '\\' then "+trailing-backslash" else "")
+    match shlexSplit src with
+    | none => if o.startsWith "EXN PE|" then [] else ["split-accepts-what-shlex-rejects" ++ feats]
+    | some l =>
+      if o == "STRS [" ++ ",".intercalate (l.map quoteStr) ++ "]" then [] else
+      if o.startsWith "STRS " then ["split-differs" ++ feats] else ["split-rejects-what-shlex-accepts" ++ feats]
+  | "shlex", [], [] =>
+    -- the transcription itself, for validation against Python's shlex.split
+    match shlexSplit src with
+    | none => ["ValueError"]
+    | some l => ["STRS [" ++ ",".intercalate (l.map quoteStr) ++ "]"]
   | "C17single", [], [par, one] =>
     if par.startsWith "OK " then
       match outcomeNodes par with
